@@ -99,6 +99,7 @@ type gen struct {
 	ghostSetsApplied int
 	callOrd          map[*ssa.Call]int // source-order ordinal of each call among the calls of the same callee
 	callOrdFn        *ssa.Function
+	retSetsCounted   bool
 	ghostSetArgs     []Val // arguments of the call the ghost assignments being applied are anchored at
 	pointAssertsApplied int
 	// freshRefs: reference terms known (syntactically) to denote objects allocated during this execution;
